@@ -143,6 +143,19 @@ def case_eval(rec, c):
         sub = np.array(U.calculate(r[perm]))
         if not np.array_equal(sub, got[perm], equal_nan=True):
             rec.fail(c, '%s: permuted sub-array evaluates differently' % CLS[name], tags(name, 'elementwise'))
+        # a caller's own axis that starts at the origin (a plotting axis): r is still not modified and the points r > 0 keep their values
+        rz = np.concatenate([[0.0], r[:8], [0.0]])
+        rz0 = rz.copy()
+        try:
+            vz = np.array(U.calculate(rz), dtype=float)
+            rec.trans()
+            if not np.array_equal(rz, rz0):
+                rec.fail(dict(c, axis='origin'), '%s.calculate modified the r array it was given (an axis containing r = 0): %r -> %r' % (CLS[name], rz0[[0, -1]].tolist(), rz[[0, -1]].tolist()),
+                         tags(name, 'purity'))
+            elif vz.shape == rz.shape and not np.array_equal(vz[1:-1], got[:8], equal_nan=True):
+                rec.fail(dict(c, axis='origin'), '%s: values at r > 0 change when the array also contains r = 0' % CLS[name], tags(name, 'elementwise'))
+        except Exception as e:
+            rec.fail(dict(c, axis='origin'), '%s.calculate raised %s on an axis that contains r = 0' % (CLS[name], type(e).__name__), tags(name, 'raises'))
     # cut-off structure
     with np.errstate(all='ignore'):
         if name == 'LJ' and p.get('rcut') is not None:
@@ -389,6 +402,8 @@ def _worker(item):
             case_wire(rec, {'kind': 'wire', 'cls': name, 'params': p, 'grid': grid, 'diam': [1.0, 1.4], 'kT': kT, 'explicit': 1.5})
             case_wire(rec, {'kind': 'wire', 'cls': name, 'params': p, 'grid': grid, 'diam': [1.0, 1.4], 'kT': kT, 'explicit': 1.3, 'by_attribute': True})
             case_wire(rec, {'kind': 'wire', 'cls': name, 'params': p, 'grid': grid, 'diam': [dAs[0], dBs[-1]], 'kT': kT, 'explicit': 0.9})
+            if name in ('HS', 'HCLJ', 'EXP'):       # contact distance zero (point-like / phantom pair) is an explicitly given sigma; for LJ/WCA sigma is the length scale and 0 is degenerate
+                case_wire(rec, {'kind': 'wire', 'cls': name, 'params': p, 'grid': grid, 'diam': [1.0, 1.4], 'kT': kT, 'explicit': 0.0})
     return rec.to_dict()
 
 
